@@ -27,7 +27,7 @@ pub(super) mod tcp {
         fn try_from(value: &ServerConfig<SslConfig>) -> Result<Self, Self::Error> {
             let kind = value.cipher;
             let (key, identity_keys) = if kind.is_aead_2022() {
-                aead_2022::password_to_keys(&value.password).map_err(|e| anyhow!(e))?
+                aead_2022::password_to_exact_keys(&value.password).map_err(|e| anyhow!(e))?
             } else {
                 let key = aead::openssl_bytes_to_key(value.password.as_bytes());
                 (key, Vec::with_capacity(0))
